@@ -14,6 +14,7 @@ import (
 	"go/token"
 	"go/types"
 	"os"
+	"os/exec"
 	"path/filepath"
 	"sort"
 	"strings"
@@ -380,6 +381,7 @@ type Fn struct {
 	g    *Graph
 
 	defCache   map[*ast.Ident]ast.Expr
+	structEscapes map[*types.Var]bool
 	litAssigns map[types.Object]bool
 	matchDepth int
 	nAssign    map[types.Object]int
@@ -447,8 +449,11 @@ func (p *Prog) LookupFunc(pkg, recv, name string) *Fn {
 		Anchors.addName(f.Name())
 	}
 	Anchors.addIdent(name)
+	noteMethodAnchor(pkg, strings.TrimPrefix(recv, "*"), name)
 	return f
 }
+
+func (p *Prog) lookupQuiet(pkg, recv, name string) *Fn { return p.lookupFunc(pkg, recv, name) }
 
 func (p *Prog) lookupFunc(pkg, recv, name string) *Fn {
 	pk := p.ByPath[Module+"/"+pkg]
@@ -545,4 +550,55 @@ func OverlayFromFile(path string) (map[string][]byte, error) {
 		out[k] = []byte(v)
 	}
 	return out, nil
+}
+
+// OverlayFromPatch applies a unified diff (paths relative to the repository root, -p1) to scratch copies of the files
+// it touches and returns the patched contents as an overlay; the repository itself is not written.
+func OverlayFromPatch(patchPath string) (map[string][]byte, error) {
+	patchPath, _ = filepath.Abs(patchPath)
+	pb, err := os.ReadFile(patchPath)
+	if err != nil {
+		return nil, err
+	}
+	files := map[string]bool{}
+	for _, ln := range strings.Split(string(pb), "\n") {
+		for _, pre := range []string{"--- a/", "+++ b/"} {
+			if strings.HasPrefix(ln, pre) {
+				name := strings.TrimSpace(strings.SplitN(strings.TrimPrefix(ln, pre), "\t", 2)[0])
+				files[name] = true
+			}
+		}
+	}
+	if len(files) == 0 {
+		return nil, fmt.Errorf("%s: no file headers", patchPath)
+	}
+	dir, err := os.MkdirTemp("", "mlbpatch")
+	if err != nil {
+		return nil, err
+	}
+	defer os.RemoveAll(dir)
+	for name := range files {
+		src, err := os.ReadFile(filepath.Join(RepoDir(), name))
+		if err != nil {
+			continue // a file the patch creates
+		}
+		dst := filepath.Join(dir, name)
+		os.MkdirAll(filepath.Dir(dst), 0o755)
+		if err := os.WriteFile(dst, src, 0o644); err != nil {
+			return nil, err
+		}
+	}
+	cmd := exec.Command("patch", "-p1", "-s", "-f", "--no-backup-if-mismatch", "-d", dir, "-i", patchPath)
+	if out, err := cmd.CombinedOutput(); err != nil {
+		return nil, fmt.Errorf("patch does not apply: %s", strings.TrimSpace(string(out)))
+	}
+	ov := map[string][]byte{}
+	for name := range files {
+		b, err := os.ReadFile(filepath.Join(dir, name))
+		if err != nil {
+			return nil, fmt.Errorf("patch removes %s: not representable as an overlay", name)
+		}
+		ov[filepath.Join(RepoDir(), name)] = b
+	}
+	return ov, nil
 }
